@@ -98,7 +98,8 @@ template <typename TN_, typename TA_, typename TH_>
 HFSM2_CONSTEXPR(14)
 void
 S_<TN_, TA_, TH_>::deepReenter(PlanControl& control) noexcept {
-	HFSM2_IF_PLANS(control._core.planData.verifyEmptyStatus(STATE_ID));
+	// a state that is re-run starts over: a success/failure mark given to it before does not carry over
+	HFSM2_IF_PLANS(control._core.planData.clearTaskStatus(STATE_ID));
 
 	HFSM2_LOG_STATE_METHOD(&Head::reenter,
 						   Method::REENTER);
